@@ -173,6 +173,8 @@ class Gen:
                     sub = "'q'"
             else:
                 sub = self.expr(ctx, d + 1, nolit=True)
+                if self.r.random() < 0.06:
+                    sub = self.ident() + ", " + sub          # a bare comma expression is a valid substitution
             out.append("${" + sub + "}")
             out.append(self.pick(["", " mid ", "-"]))
         out.append("`")
@@ -310,6 +312,7 @@ class Gen:
         return self.weighted([
             (3, lambda: o + "." + self.pick(["p", "length", "prototype"])),
             (1, lambda: o + "[" + self.expr(ctx, d + 1) + "]"),
+            (0.15, lambda: o + "[" + self.ident() + ", " + self.expr(ctx, d + 1) + "]"),   # ... and a valid computed key
             (0.3, lambda: o + ".#priv" if False else o + ".p"),
         ])()
 
